@@ -6,17 +6,17 @@ CLAIMED = {
  "C03": dict(level="exploration", design="4/C03",
    technique="deterministic simulation of UCI sessions (simulated GUI playing games, virtual clock with per-run cost model, stall jumps, forced expiry at the first clock reads, seeded key draws, stale tables across games); oracle = independent rules-of-chess model",
    text="Seeded search over session histories and clock schedules: each sim is one engine process lifetime of 1-4 games; every go (depth, movetime incl. 0, clocks in four regimes) must be answered by exactly one bestmove, legal per the rules model and never 0000 while a legal move exists, without a crash; earlier games of the process are taken up again with and without ucinewgame. The schedule dimension (where the budget expires) is sampled by the cost model, the zero-budget corner is pinned by forced expiry.",
-   note="Sampled sessions; legality judged by rules model R (perft-validated); depth-limited searches hitting the step cap are inconclusive."),
+   note="Sampled sessions; legality judged by rules model R (perft-validated); depth-limited searches hitting the step cap are inconclusive unless they make no progress (400 000 nodes in a row without a quiescence node, a store attempt or an output line: reported as diverged); a clocked go that reaches the step cap is a violation. Also: tiny endgames to depth 5-7, position lines of 8-22 KB, searchmoves lists, design 13.9/13.10."),
  "C04": dict(level="exploration", design="4/C04",
    technique="deterministic simulation of UCI sessions, step-driven: histories of position commands compared field by field with an independent rules-of-chess model after every command; engine crash = violation; 5% re-run through the real uci_loop",
-   text="Seeded histories of position commands (FENs written by the rules model with counters up to 6000, move lists up to 300 plies biased to special moves, stream-shape variation) inside one process; the engine board must equal the model's position after each.",
+   text="Seeded histories of position commands (FENs written by the rules model with counters up to 6000, move lists up to 300 plies biased to special moves, stream-shape variation, look-alike pairs that differ in a castling right or the ep square within one session, kings capturing unmoved corner rooks, games of up to ~4000 plies read through the real input loop) inside one process; the engine board must equal the model's position after each.",
    note="Sampled histories; the oracle is the rules model R, validated by perft against published values."),
  "C05": dict(level="exploration", design="4/C05",
    technique="deterministic simulation of the searcher with seeded key draws and cooperative cache faults (probe pretends to miss, store refused); oracle = unpruned minimax over the engine's own full-window quiescence values",
    text="Sampled positions; each searched fault-free under two key sets and under five buggified-cache configurations; value must equal the reference and the move must attain it. Fixed-depth 4-5 runs accepted only when instrumentation shows no deeper cached result was reused.",
    note="Reference takes move generation, make_move, evaluation and quiescence as given; positions beyond the reference's node budget are skipped and counted; positions are sampled inputs (only key draws and cache faults are simulation)."),
  "C06": dict(level="fault_enumeration", design="4/C06",
-   technique="deterministic simulation of the searcher: crash point = index of the clock read at which the deadline first reads expired, enumerated per position (exhaustively for small searches in the thorough tier); oracle = reference minimax for the later completed search + audit of every cached claim + history-length invariant",
+   technique="deterministic simulation of the searcher: crash point = index of the clock read at which the deadline first reads expired, enumerated per position (exhaustively for small searches in the thorough tier), on a clock that jumps past a far deadline at that read and on an evenly running clock (1 ms per read, budget j ms); UCI sessions with a game history whose interrupted go lines also carry searchmoves/nodes/mate; oracle = reference minimax for the later completed search + audit of every cached claim + history-length invariant",
    text="For each sampled position the interruption point is enumerated over the clock reads of the search (the complete set of distinguishable interruption instants), singly and in sequences of 2-3; afterwards a completed search must report the reference value with an attaining move, every transposition-table claim must be true, and the repetition stack must be unchanged.",
    note="Exhaustive only in the crash-point dimension and only per sampled position; depth <= 3 (where the reference is unambiguous)."),
  "C07": dict(level="fault_enumeration", design="4/C07",
@@ -25,28 +25,28 @@ CLAIMED = {
    note="'Promptly' is taken as <= 4096 nodes (current code: 2); time bound asserted only without stall jumps."),
  "C09": dict(level="exploration", design="4/C09",
    technique="deterministic simulation of UCI sessions, step-driven: game histories with planted repetitions; per-successor repetition query and depth-1 search compared with a reference that knows the game-history rule (occurrences counted by the independent rules model)",
-   text="Seeded histories (shuffle cycles, look-alike positions with other rights, several position commands in a row); for every legal successor the engine's repetition verdict must equal 'occurred at least twice before'; the first go depth 1 of a game must report max(0 for repeating moves, -quiescence otherwise).",
+   text="Seeded histories (shuffle cycles, look-alike positions with other rights, several position commands in a row, histories beyond 1024 plies, one position occurring 254-259 times, a game starting from the position searched in the game before, GUI-anytime commands incl. advertised options between position and go); for every legal successor the engine's repetition verdict must equal 'occurred at least twice before'; the first go depth 1 of a game must report max(0 for repeating moves, -quiescence otherwise).",
    note="Only depth 1 is judged; successors on which the ep-square conventions disagree are skipped and counted."),
  "C11": dict(level="exploration", design="4/C11",
    technique="randomness seam (simulator-chosen key sets) + histories (game trees reaching positions by many move orders) + single-component neighbours + all pairs of one-feature variants of seeded bases (two-component differences); monitor: canonical position <-> hash bijection per key set",
-   text="Weak claim: a monitor over ~1e7 hashed boards per quick run, one key set per sim; same canonical position must always hash equal (any path, any counters), different canonical positions must hash differently.",
+   text="Weak claim: a monitor over ~1e7 hashed boards per quick run, one key set per sim; same canonical position must always hash equal (any path, any counters, before and after searches on the same engine, before and after another key table is created in the same process), different canonical positions must hash differently.",
    note="The hash is otherwise a pure function; only key draws and move-order histories are simulation content. Collision probability of honest keys ~1e-10 per run."),
  "C12": dict(level="exploration", design="4/C12",
    technique="deterministic simulation of a match with two chess clocks in virtual time; budget observed where the real go handler arms the real timer; metamorphic twin go with the opponent's clock replaced and tokens permuted; think time measured on the virtual clock in long-think sims",
    text="Seeded clock values (0 .. hours, increments up to and beyond the remaining time), both colours, all token orders; armed budget must exist, be <= the mover's remaining time, < when any time remains, and be unchanged by the opponent's values and the token order; in sims that let the engine think for 10^5-10^6 nodes the virtual time from go to bestmove must fit in the mover's remaining time (plus the overrun C07 allows).",
-   note="Nothing is asserted about the allocation formula; the oracle's reading of the tokens is 'token followed by value, any order'."),
+   note="Nothing is asserted about the allocation formula; the oracle's reading of the tokens is 'token followed by value, any order'. Token-order invariance is asserted for permutations of the four clock pairs; when other parameter pairs (movestogo, depth, nodes) sit between them the twin keeps the layout and only the opponent's values change (design 13.9). searchmoves lists next to the clocks, history independence of the budget."),
  "C13": dict(level="exploration", design="4/C13",
    technique="deterministic simulation twin runs: same script under several simulator-chosen key seeds; prefix+ucinewgame+suffix vs fresh process; plus two runs of the real binary (real key draws) compared with the simulation",
-   text="Transcripts (info/bestmove minus time/nps) must be byte-identical across key sets and between 'after ucinewgame' and a fresh process, with adversarial prefixes containing clock-interrupted searches, suffixes that continue the game of the prefix, and a share of single large searches (several 10^5 nodes) for dependences that need many table probes to show.",
+   text="Transcripts (info/bestmove minus time/nps) must be byte-identical across key sets and between 'after ucinewgame' and a fresh process, with adversarial prefixes containing clock-interrupted searches, suffixes that continue the game of the prefix, and a share of single large searches (several 10^5 nodes) for dependences that need many table probes to show; the same script on a machine a million times slower (depth-limited output must not notice the clock); one giant scenario per quick batch (ten depth-7 searches after ucinewgame, ~700 000 distinct positions cached) against a fresh process; position lines of 1-3.5 KB in the suffix.",
    note="HashMap hasher state is not behind a seam and varies like the keys; scripts are sampled."),
  "C15": dict(level="exploration", design="4/C15",
    technique="in-situ audit of the engine's own table after each of several simulated (interrupted, buggified) searches on one engine against depth-preferred replacement over all observed store calls; store/retrieve traffic recorded from such searches replayed on a fresh real table next to a reference map; synthetic seeded histories with depth ties and extreme scores (model-based sequence testing)",
-   text="Every retrieve of every replayed history must return exactly what the depth-preferred reference map holds for that key (all fields), never an entry of another key; after every search of an in-situ session the table content must equal the reference map built from every store call since the engine was created.",
+   text="Observation-based, loss-tolerant oracle (design 13.1): every store is bracketed by lookups of its key; a lookup shows nothing or exactly what the key was last seen to hold, never another key's entry; a shallower store must leave a deeper entry, an equal or deeper one must replace it. Judged on replayed recorded traffic, synthetic histories (depth ties, the whole depth byte, extreme and coarse scores, tables replaced on the way), huge tables, and in situ on the engine's own table across several searches (also through UCI with setoption Hash lines).",
    note="Replay assumes the table is deterministic in its call sequence; what the engine does to the table between calls (per-search housekeeping) is covered by the in-situ audit; the synthetic part is not fault injection."),
  "C16": dict(level="fault_enumeration", design="4/C16",
    technique="deterministic simulation of the UCI process (stdin/stdout/exit seams) with end-of-input injected at every byte offset, transient read errors, reads interrupted by signals (EINTR) and undecodable lines; oracle = protocol transducer; real-binary fidelity runs",
    text="Every generated script is run once per byte offset at which the input can end (fault enumeration over the crash-point dimension, exhaustive per light script), each as one simulated engine process; output must match the protocol model and the process must terminate with status 0 within 8 reads after end of input. Sampled runs are repeated on the real binary over a real pipe.",
-   note="Scripts are sampled; the stubs (reader, sink, exit) are trusted to behave like the OS facilities, checked by the real-binary runs; unknown lines exclude UCI command words."),
+   note="Scripts are sampled; the stubs (reader, sink, exit) are trusted to behave like the OS facilities, checked by the real-binary runs; unknown lines exclude UCI command words. With line-by-line delivery every output line is attributed to the input line read last: nothing may be written in response to a non-command line; info string lines next to answers are tolerated; the answer to go ponder may be held back until stop/ponderhit. Runs of 60 000-250 000 lines without a command (stack probe in the input path; real binary)."),
 }
 
 NOT_APPLICABLE = {
